@@ -80,7 +80,7 @@ def run_variant(mod, repo, patch):
         known = [k for k in result.load_known() if k.get('property') == r2.pid and k.get('status') == 'open']
         viols = []
         for o in r2.obs:
-            if o['verdict'] == VIOL and not any(k['rule'] == o['rule'] and k['function'] == o['function'] and k['expr'] == o['expr'] for k in known):
+            if o['verdict'] == VIOL and result.is_known(o, known) is None:
                 viols.append('%s: %s at %s' % (o['rule'], o['instance'], o['where'].replace(d + '/', '')))
         und = [o for o in r2.obs if o['verdict'] == UNDEC]
         broken = [m for m in r2.minimums if m[1] < m[2]]
